@@ -8,34 +8,49 @@ Two groups of contracts, all discharged by Kani against the REAL code of /repo:
         post_same := result(dm) == result(core)  &&  bytes(dm sink) == bytes(core sink)        [+ the field saw the same options]
 
     for `debug_tuple(name)`, `.field(v)` from the abstract states (fields == 0 | fields > 0) x (Ok | Err), `.finish()`,
-    `.finish_non_exhaustive()`, names "" and "N".  The whole-builder claim for k fields is the composition of these step
-    contracts over the invariant `(result, fields == 0, fields == 1, empty_name)` -- argued, not proved.
+    `.finish_non_exhaustive()`, names "" and "N", a sink that fails at every byte position.  Each harness is
+    `debug_tuple(name)`, a concrete prefix of <= 1 tiny field (core's DebugTuple has private fields: the state `fields > 0`
+    can only be reached by calling `.field`), the step, a finisher -- so k <= 2 is covered directly; the claim for k fields is the
+    composition of the step contracts over the invariant `(result, fields == 0, fields == 1, empty_name)`: argued, not proved.
 
 (2) the generated `fmt` of a family of type definitions; every member is declared twice -- `#[derive(derive_more::Debug)]`
     in module `dm`, `#[derive(core::fmt::Debug)]` in module `sd`, same names -- and
 
         post_same := bytes(dm::T as Debug) == bytes(sd::T as Debug)
 
-    under `{:?}`, `{:#?}`, `{:x?}`/`{:X?}`, `{:w$?}` for every w (thorough: every option kind, flat and pretty).
+    quick: `{:?}` | `{:x?}` | `{:X?}` | `{:w$?}` for every w (one obligation `ob_flat`), `{:#?}` (`ob_pretty`), and for the shapes
+    that contain positional fields `{:#x?}`, `{:#X?}`, `{:#w$?}`; thorough: every option kind, flat and pretty.
     With `#[debug(skip)]`/`#[debug(ignore)]` the reference is a hand-written std builder chain closed by
     `finish_non_exhaustive()`; with a field-level `#[debug("..", args)]` the reference passes `format_args!(..)` as that field.
+    Family: unit / () / {}, tuple and named 1..3, multi-line and symbolic-byte field values, an enum with all variant kinds, nesting
+    depth 2 (tuple|named in tuple|named, in enum variants), generics (type, lifetime + const, enum), raw identifiers as type /
+    variant / field names, all subsets of skipped fields of 1-, 2- and 3-field structs, field-level formats.
+    One representative carries a real `#[kani::ensures]` (proof_for_contract); one negative control.
 
-Cost notes (measured, see DESIGN): CBMC's symbolic execution only stays concrete if (a) the flags word of the formatter is
-concrete on each path -- so `alternate` is fixed per harness and the other options are varied one kind at a time, each
-variant on its own path, with symbolic width / precision VALUES --, and (b) three functions of core are replaced by models
-(kani::stub): `core::slice::memchr::memchr` by core's own `memchr_naive`; `core::slice::index::get_offset_len_noubcheck` by a
-version that gives EMPTY sub-slices a dangling non-null address (CBMC cannot decide that a one-past-the-end pointer is
-non-null, which made every `split_inclusive('\n')` of the padding adapters branch); `fmt::Arguments::as_str` by `None` in harnesses
-where every `Arguments` that reaches `fmt::write` has an argument (it tests bit 0 of a pointer). Every counterexample is
-replayed natively, i.e. WITHOUT these models.
+Cost notes (measured, see DESIGN): CBMC's symbolic execution only stays concrete -- a few seconds per value instead of > 7 min -- if
+(a) the flags word of the formatter is concrete on each path: `alternate` is fixed per harness and the other options are varied
+one kind at a time, each variant on its own path (`match kani::any() { 0 => body(opts_0), .. }`), with symbolic width / precision
+VALUES; probe tags are const parameters (a tag read back from an enum payload is not constant-propagated); and
+(b) three functions of core are replaced by models (kani::stub):
+  * `core::slice::memchr::memchr` by core's own `memchr_naive` (the word-at-a-time path goes through `align_offset`, DESIGN 2.4);
+  * `core::slice::index::get_offset_len_noubcheck` by a version that gives EMPTY sub-slices a dangling non-null address: CBMC does not
+    simplify `one-past-the-end pointer != null`, so the `Option<&[u8]>` returned by `haystack.get(finger..finger_back)` was neither
+    None nor Some after a match at the end of a piece ("(\n", ",\n", "..\n") and every `split_inclusive('\n')` of the padding
+    adapters forked up to the unwind bound, three loops deep;
+  * `fmt::Arguments::as_str` by `None` in harnesses where every `Arguments` that reaches `fmt::write` has an argument (it tests bit 0
+    of a pointer's address; the spurious `Some(str of symbolic length)` was then pushed through `Padded::write_str`).
+Every counterexample is replayed natively, i.e. WITHOUT these models.
 
-Findings on the tree this was written against:
+Findings on the tree this was written against (all confirmed natively on stable):
  1. (DESIGN 2.6) type and variant names that are raw identifiers are printed with the `r#` prefix (`r#type`, `r#if(..)`);
-    std prints `type`, `if(..)`.  Programs raw_*; repair: /tmp/C06_fix.diff.
+    std prints `type`, `if(..)`.  Programs raw_type_*, raw_variants; repair: /tmp/C06_fix.diff (unraw() at three sites).
  2. in pretty mode `DebugTuple::field` (src/fmt.rs:66) formats the value through `format_args!("{value:#?}")`, i.e. with a fresh
     formatter: every option of the outer formatter except `#` is lost (hex-debug, width, fill, alignment, sign, zero-pad,
     precision); core's DebugTuple keeps them.  `format!("{:#x?}", T(255u8))`: `T(\n    255,\n)` vs std `T(\n    0xff,\n)`.
-    Obligations `*_pretty_<kind>`; no repair possible on stable with MSRV 1.75 (open known finding).
+    Obligations `*_pretty_<kind>*`, `bt_pretty/ob_*_<kind>`; no complete repair on stable with MSRV 1.75 (open known finding).
+ 3. `#[derive(derive_more::Debug)] struct B<'a, T>(&'a T, T);` does not compile ("lifetime may not live long enough"): the generated
+    where-clause `&'a T: Debug` is preferred by rustc over the blanket impl for every `&'_ T` in the body.  Program
+    g_ref_and_owned; repair: /tmp/C06_fix3.diff (bound the referent).
 """
 import itertools
 import os
